@@ -302,6 +302,19 @@ func execLife(x *X, base string, ops []Op, or lifeOracles) {
 			}
 			x.Violate(sig, "%s\n  history on %s: %s\n  model before this step: %s", fmt.Sprintf(format, a...), base, strings.Join(hist, " → "), s.abstract())
 		}
+		// sign, unsign, validate and verify are not header operations: whatever their outcome,
+		// the header's own entries (identifier, stamps, links, tags, meta, notes) stay as they were
+		var hdrBefore []byte
+		switch op.K {
+		case "sign", "unsign", "validate", "verify":
+			if s.env.Head != nil && !(op.K == "sign" && op.S3 != "") {
+				hv, _ := ParseJV(Marshal(s.env.Head))
+				if hv != nil {
+					hv.Del("dig")
+					hdrBefore = hv.Encode(nil)
+				}
+			}
+		}
 		switch op.K {
 		case "insert":
 			o2, err := ParseEnv(d.Env)
@@ -611,6 +624,14 @@ func execLife(x *X, base string, ops []Op, or lifeOracles) {
 			}
 		}
 		// invariants after every step
+		if hdrBefore != nil && s.env.Head != nil {
+			if hv, _ := ParseJV(Marshal(s.env.Head)); hv != nil {
+				hv.Del("dig")
+				if after := hv.Encode(nil); !bytes.Equal(hdrBefore, after) {
+					bad("header-changed-by:"+op.K+":"+GDiff(hdrBefore, after), "%s changed the header's own entries; %s", op.K, DiffDetail(hdrBefore, after))
+				}
+			}
+		}
 		if !s.m.garbageSigs {
 			if ok, why := realSigs(s.env); !ok {
 				bad("sigs:not-real", "signature list holds a non-signature: %s", why)
